@@ -8,6 +8,7 @@ CONSTANTS Keys = {1, 2, 3}
           Rej = FALSE
           EK = 0
 VIEW View
+ACTION_CONSTRAINT DumpT
 INVARIANTS Bounded NoDup DomOK SetOK RefuseOK
 PROPERTIES FirstAtHead LastAtTail PlainAppends PlainKeeps UpdateKeepsKeys OthersKeepOrder EvictOpposite SortPermutes RemoveExact LRUMoves
 CHECK_DEADLOCK FALSE
